@@ -104,6 +104,7 @@ structure St where
   crashed : Bool
   refused : Option Write    -- the write the process died in front of
   fuelOut : Bool            -- a recursion bound of the model was hit (never, see `Props`)
+  p008 : Bool               -- fork configuration: `common.IsProposal008()` (executed-transaction check in verifyBlock)
 
 /-- Perform one physical write, or die in front of it. -/
 def St.write (s : St) (w : Write) : St :=
@@ -202,7 +203,7 @@ def verify (s : St) (b : Block) : St × Bool :=
   match s.disk.blocks b.pre with
   | none => (s.setMem { s.mem with future := upd s.mem.future b.pre (some b) }, false)
   | some _ =>
-    if b.txs.any (fun t => (s.disk.executed t).isSome) then (s, false)   -- Proposal008
+    if s.p008 && b.txs.any (fun t => (s.disk.executed t).isSome) then (s, false)   -- Proposal008
     else if !b.valid then (s, false)                                       -- checkStates
     else (s.setMem { s.mem with verified := lruAdd verifiedCap s.mem.verified b.hash }, true)
 
@@ -337,7 +338,7 @@ def genesisState (g : Block) : St :=
                              current := some g,
                              roots := updB (fun _ => false) g.hash true },
     mem := { latest := g, top := fun _ => none, verified := [], future := fun _ => none, pending := [] },
-    log := [], budget := none, crashed := false, refused := none, fuelOut := false }
+    log := [], budget := none, crashed := false, refused := none, fuelOut := false, p008 := true }
 
 /-- Fuel the driver supplies: one re-entry after a reorg plus a generous bound on orphan cascades. -/
 def defaultFuel : Nat := 64
